@@ -77,6 +77,7 @@ func main() {
 	switch cmd {
 	case "check", "baseline", "dump":
 		claimEverything = *claimAll
+		noRetry = *claimAll || cmd != "check"
 		devRun = *claimAll || *fnFilter != "" || *oblFilter != "" || cmd != "check"
 		os.Exit(runCheck(cmd, *prop, *tier, *fnFilter, *oblFilter, *verbose))
 	case "selftest":
